@@ -519,8 +519,10 @@ func hasMaxFloat32(v reflect.Value) bool {
 
 var scalarLooking = []string{"true", "false", "1.50", "1e3", "-7", "0", "null", "12345678901234567890", "-0.0", "3.14159", "-", ".", "e5", "1.", "NaN"}
 
-// forceScalarStrings overwrites the settable string leaves that are not map keys with scalar-looking texts
-func forceScalarStrings(r *vh.Rng, v reflect.Value) {
+var escapedStrings = []string{"line1\nline2", "tab\there", "say \"hi\" twice", "back\\slash\\path", "<a href=\"x\">&amp;</a>", "ctl\x01\x1f end", "mixed \u00e9\n\t\"q\"", "\r\n\r\n", "x\ny"}
+
+// forceStrings overwrites the settable string leaves that are not map keys with texts drawn from the pool
+func forceStrings(r *vh.Rng, v reflect.Value, pool []string) {
 	t := v.Type()
 	if t == vh.TimeType {
 		return
@@ -528,14 +530,14 @@ func forceScalarStrings(r *vh.Rng, v reflect.Value) {
 	switch t.Kind() {
 	case reflect.String:
 		if v.CanSet() && r.Chance(2, 3) {
-			v.SetString(scalarLooking[r.Intn(len(scalarLooking))])
+			v.SetString(pool[r.Intn(len(pool))])
 		}
 	case reflect.Slice, reflect.Array:
 		if t.Elem().Kind() == reflect.Uint8 {
 			return
 		}
 		for i := 0; i < v.Len(); i++ {
-			forceScalarStrings(r, v.Index(i))
+			forceStrings(r, v.Index(i), pool)
 		}
 	case reflect.Map:
 		it := v.MapRange()
@@ -544,7 +546,7 @@ func forceScalarStrings(r *vh.Rng, v reflect.Value) {
 		for it.Next() {
 			e := reflect.New(t.Elem()).Elem()
 			e.Set(it.Value())
-			forceScalarStrings(r, e)
+			forceStrings(r, e, pool)
 			upd = append(upd, kv{it.Key(), e})
 		}
 		for _, x := range upd {
@@ -552,12 +554,12 @@ func forceScalarStrings(r *vh.Rng, v reflect.Value) {
 		}
 	case reflect.Ptr:
 		if !v.IsNil() {
-			forceScalarStrings(r, v.Elem())
+			forceStrings(r, v.Elem(), pool)
 		}
 	case reflect.Struct:
 		for i := 0; i < t.NumField(); i++ {
 			if t.Field(i).PkgPath == "" {
-				forceScalarStrings(r, v.Field(i))
+				forceStrings(r, v.Field(i), pool)
 			}
 		}
 	}
@@ -717,7 +719,10 @@ func (c *ctx) one(r *vh.Rng, idx int, wantModel bool) {
 	// options (json MapKeyAsString sniffs quoted map KEYS only)
 	mkasF, _ := oF["MapKeyAsString"].(bool)
 	if (F == "json" && mkasF && r.Chance(1, 2)) || r.Chance(1, 8) {
-		forceScalarStrings(r, v)
+		forceStrings(r, v, scalarLooking)
+	} else if (F == "json" && n.zeroCopy && r.Chance(2, 3)) || r.Chance(1, 8) {
+		// several different strings that need unescaping in json (a ZeroCopy tree must not share scratch storage)
+		forceStrings(r, v, escapedStrings)
 	}
 	signedOvf := n.signed && hasBigUint(v)
 	if F == "json" && n.signed && hasFloatIn(v, 9223372036854775808.0, 18446744073709551616.0) {
